@@ -91,3 +91,61 @@ def transform_table(table, m, t=(0.0, 0.0, 0.0), decimals=3):
 
 def dist(a, b):
     return math.sqrt((float(a["x"]) - float(b["x"])) ** 2 + (float(a["y"]) - float(b["y"])) ** 2 + (float(a["z"]) - float(b["z"])) ** 2)
+
+
+# ---------------------------------------------------------------------------------------------
+# local base frames and two/three-nucleotide placements
+
+import numpy as _np
+
+_BASE = {
+    "A": ["N1", "C2", "N3", "C4", "C5", "C6", "N6", "N7", "C8", "N9"],
+    "G": ["N1", "C2", "N2", "N3", "C4", "C5", "C6", "O6", "N7", "C8", "N9"],
+    "C": ["N1", "C2", "O2", "N3", "C4", "N4", "C5", "C6"],
+    "U": ["N1", "C2", "O2", "N3", "C4", "O4", "C5", "C6"],
+    "T": ["N1", "C2", "O2", "N3", "C4", "O4", "C5", "C6", "C7"],
+}
+_local_cache = {}
+
+
+def local_template(letter):
+    """[(atom name, local xyz)] of the template nucleotide in its own base frame (origin = base centroid, z = base normal)."""
+    if letter in _local_cache:
+        return _local_cache[letter]
+    t = TEMPLATES["single"][letter]
+    atoms = {n: _np.array([x, y, z]) for n, x, y, z, el in t["atoms"]}
+    if letter in "AG":
+        n = _np.cross(atoms["N7"] - atoms["N9"], atoms["N3"] - atoms["N9"])
+        gn = atoms["N9"]
+    else:
+        n = _np.cross(atoms["C4"] - atoms["N1"], atoms["O2"] - atoms["N1"])
+        gn = atoms["N1"]
+    n = n / _np.linalg.norm(n)
+    c = _np.mean([atoms[a] for a in _BASE[letter] if a in atoms], axis=0)
+    x = gn - c
+    x = x - n * _np.dot(x, n)
+    x = x / _np.linalg.norm(x)
+    y = _np.cross(n, x)
+    loc = [(name, _np.array([_np.dot(p - c, x), _np.dot(p - c, y), _np.dot(p - c, n)])) for name, p in atoms.items()]
+    _local_cache[letter] = loc
+    return loc
+
+
+def place(letter, r, theta_deg, phi_deg, flip, rise=0.0, tilt_deg=0.0):
+    """Atoms of a nucleotide placed relative to a nucleotide sitting at the origin frame."""
+    th, ph, ti = math.radians(theta_deg), math.radians(phi_deg), math.radians(tilt_deg)
+    out = []
+    for name, q in local_template(letter):
+        x, y, z = q
+        if flip:
+            y, z = -y, -z
+        # tilt about the y axis
+        x, z = x * math.cos(ti) + z * math.sin(ti), -x * math.sin(ti) + z * math.cos(ti)
+        # in-plane rotation
+        x, y = x * math.cos(ph) - y * math.sin(ph), x * math.sin(ph) + y * math.cos(ph)
+        out.append((name, _np.array([x + r * math.cos(th), y + r * math.sin(th), z + rise])))
+    return out
+
+
+def origin(letter):
+    return [(name, q.copy()) for name, q in local_template(letter)]
